@@ -30,11 +30,117 @@ func symMarshal(i interface{}) ([]byte, error) {
 		b := make([]byte, 8)
 		verifPutU64(b, v)
 		return b, nil
+	case Node:
+		// v1marshaler: the user marshaler encodes the bare Node
+		b := []byte{'N', byte(len(v.Key))}
+		for _, k := range v.Key {
+			kb, err := symMarshal(k)
+			if err != nil {
+				return nil, err
+			}
+			b = append(b, kb...)
+		}
+		b = append(b, byte(len(v.Value)))
+		for _, x := range v.Value {
+			vb, err := symMarshal(x)
+			if err != nil {
+				return nil, err
+			}
+			b = append(b, vb...)
+		}
+		b = append(b, byte(len(v.Link)))
+		for _, l := range v.Link {
+			s, _ := l.(string)
+			b = append(b, byte(len(s)))
+			b = append(b, s...)
+		}
+		return b, nil
 	}
 	return nil, errSymCodec
 }
 
+// symParseNode parses the Node encoding above.
+func symParseNode(b []byte) (keys, vals [][]byte, links []string, ok bool) {
+	if len(b) < 2 || b[0] != 'N' {
+		return
+	}
+	pos := 1
+	nk := int(b[pos])
+	pos++
+	for i := 0; i < nk; i++ {
+		if pos+8 > len(b) {
+			return
+		}
+		keys = append(keys, b[pos:pos+8])
+		pos += 8
+	}
+	if pos >= len(b) {
+		return
+	}
+	nv := int(b[pos])
+	pos++
+	for i := 0; i < nv; i++ {
+		if pos+8 > len(b) {
+			return
+		}
+		vals = append(vals, b[pos:pos+8])
+		pos += 8
+	}
+	if pos >= len(b) {
+		return
+	}
+	nl := int(b[pos])
+	pos++
+	for i := 0; i < nl; i++ {
+		if pos >= len(b) {
+			return
+		}
+		l := int(b[pos])
+		pos++
+		if pos+l > len(b) {
+			return
+		}
+		links = append(links, string(b[pos:pos+l]))
+		pos += l
+	}
+	return keys, vals, links, pos == len(b)
+}
+
 func symUnmarshal(b []byte, out interface{}) error {
+	switch p := out.(type) {
+	case *stringNodeT:
+		keys, vals, links, ok := symParseNode(b)
+		if !ok {
+			return errSymCodec
+		}
+		for _, k := range keys {
+			p.Key = append(p.Key, k)
+		}
+		for _, v := range vals {
+			p.Value = append(p.Value, v)
+		}
+		p.Link = links
+		return nil
+	case *Node:
+		keys, vals, links, ok := symParseNode(b)
+		if !ok {
+			return errSymCodec
+		}
+		for _, k := range keys {
+			p.Key = append(p.Key, symKey{verifGetU64(k)})
+		}
+		for _, v := range vals {
+			p.Value = append(p.Value, verifGetU64(v))
+		}
+		for _, l := range links {
+			if l == "" {
+				p.Link = append(p.Link, nil)
+			} else {
+				p.Link = append(p.Link, l)
+			}
+		}
+		return nil
+	}
 	if len(b) != 8 {
 		return errSymCodec
 	}
@@ -73,6 +179,8 @@ type vStore struct {
 	nLoad    int
 	nStore   int
 	yieldInStore bool
+	checkConflicts bool
+	conflict bool // some name was stored twice with different bytes
 }
 
 var errVStoreMissing = errors.New("vstore: no such node")
@@ -81,6 +189,12 @@ var errVStoreFault = errors.New("vstore: injected fault")
 func newVStore(prefix string) *vStore { return &vStore{prefix: prefix} }
 
 func (s *vStore) find(name string) int {
+	// syntactically identical name first: no solver involvement
+	for i := range s.names {
+		if verifStrSame(s.names[i], name) {
+			return i
+		}
+	}
 	for i := range s.names {
 		if s.names[i] == name {
 			return i
@@ -102,6 +216,9 @@ func (s *vStore) Store(ctx context.Context, name string, b []byte) error {
 	copy(cp, b)
 	s.storeLog = append(s.storeLog, name)
 	if i := s.find(name); i >= 0 {
+		if s.checkConflicts {
+			s.conflict = verifOr(s.conflict, !verifStrEq(string(s.blobs[i]), string(cp)))
+		}
 		s.blobs[i] = cp
 		return nil
 	}
@@ -139,6 +256,11 @@ type vCache struct {
 
 func (c *vCache) idx(key interface{}) int {
 	k := key.(string)
+	for i := range c.keys {
+		if verifStrSame(c.keys[i], k) {
+			return i
+		}
+	}
 	for i := range c.keys {
 		if c.keys[i] == k {
 			return i
@@ -205,6 +327,23 @@ func (m *symModel) size() uint64 {
 	return n
 }
 
+// buildAscending inserts n entries with strictly ascending symbolic keys (symbolic
+// layers and values). By canonical form (C04) this reaches every tree shape of n entries.
+func buildAscending(tag string, t *Mast, md *symModel, n int) []uint64 {
+	var ks []uint64
+	for i := 0; i < n; i++ {
+		k, v := verifNondetU64("k"), verifNondetU64("v")
+		if i > 0 {
+			verifAssume(ks[i-1] < k)
+		}
+		err := t.Insert(vctx, symKey{k}, v)
+		verifAssert("C01."+tag+".insert.err", err == nil)
+		md.put(k, v)
+		ks = append(ks, k)
+	}
+	return ks
+}
+
 // iterAll collects a full iteration.
 func iterAll(t *Mast) (ks, vs []uint64, err error) {
 	err = t.Iter(vctx, func(k, v interface{}) error {
@@ -230,6 +369,10 @@ func seqMatches(ks, vs []uint64, md *symModel) bool {
 
 // checkTree is the observation battery of C01.
 func checkTree(tag string, t *Mast, md *symModel, probe symKey) {
+	checkTreeP("C01."+tag, t, md, probe)
+}
+
+func checkTreeP(tag string, t *Mast, md *symModel, probe symKey) {
 	verifAssert(tag+".size", t.Size() == md.size())
 	ks, vs, err := iterAll(t)
 	verifAssert(tag+".iter-err", err == nil)
